@@ -6,10 +6,23 @@
 #include "vf.h"
 uint64_t __CPROVER_uninterpreted_des_keyid(uint64_t key);
 uint64_t __CPROVER_uninterpreted_des_block(uint64_t keyid, uint32_t salt, uint64_t in, unsigned count, _Bool dec);
+#ifdef UF_LOG
+/* C03: every application is logged so the harness can instantiate the
+   ideal-cipher (injectivity) axiom on the finitely many applications that occur */
+#ifndef DLOG
+#define DLOG 8
+#endif
+uint64_t vf_dk_key[DLOG], vf_dk_res[DLOG]; unsigned vf_dk_n;
+uint64_t vf_db_id[DLOG], vf_db_in[DLOG], vf_db_res[DLOG]; uint32_t vf_db_salt[DLOG]; unsigned vf_db_count[DLOG]; _Bool vf_db_dec[DLOG]; unsigned vf_db_n;
+#endif
 static uint64_t ld(const unsigned char *p) { uint64_t v = 0; for (int i = 0; i < 8; i++) v = (v << 8) | p[i]; return v; }
 void des_set_key(struct des_ctx *restrict ctx, const unsigned char key[8])
 {
-  uint64_t id = __CPROVER_uninterpreted_des_keyid(ld(key));
+  uint64_t id = __CPROVER_uninterpreted_des_keyid(ld(key) & 0xfefefefefefefefeULL);
+#ifdef UF_LOG
+  if (vf_dk_n < DLOG) { vf_dk_key[vf_dk_n] = ld(key) & 0xfefefefefefefefeULL; vf_dk_res[vf_dk_n] = id; }
+  vf_dk_n++;
+#endif
   ctx->keysl[0] = (uint32_t)(id >> 32); ctx->keysr[0] = (uint32_t)id;
   for (int i = 1; i < 16; i++) { ctx->keysl[i] = 0; ctx->keysr[i] = 0; }
 }
@@ -17,6 +30,11 @@ void des_set_salt(struct des_ctx *restrict ctx, uint32_t salt) { ctx->saltbits =
 void des_crypt_block(struct des_ctx *restrict ctx, unsigned char *out, const unsigned char *in, unsigned int count, bool decrypt)
 {
   uint64_t id = ((uint64_t)ctx->keysl[0] << 32) | ctx->keysr[0];
+  if (count == 0) count = 1;      /* as the real function: zero encryptions make no sense */
   uint64_t o = __CPROVER_uninterpreted_des_block(id, ctx->saltbits, ld(in), count, decrypt);
+#ifdef UF_LOG
+  if (vf_db_n < DLOG) { vf_db_id[vf_db_n] = id; vf_db_salt[vf_db_n] = ctx->saltbits; vf_db_in[vf_db_n] = ld(in); vf_db_count[vf_db_n] = count; vf_db_dec[vf_db_n] = decrypt; vf_db_res[vf_db_n] = o; }
+  vf_db_n++;
+#endif
   for (int i = 0; i < 8; i++) out[i] = (unsigned char)(o >> (56 - 8 * i));
 }
